@@ -249,7 +249,8 @@ theorem put_ok {d : Disk} (hs : SInv d) (v : Vol) (fsL : List LRec) (ch : List N
   have hinv4 : Inv (wbRaw (setUnit dc.raw B (patched (patched (if B = 2 then patched (unitAt d.raw 2) 37 (u16le (le16 (unitAt d.raw 2) 37 + 1))
         else unitAt d.raw B) (4 + k * 39) e0) (4 + k * 39) (Ent.setAccess (Ent.setEof s.entry f.eof) acc))) (hdrBm d.raw) (nbmOf (hdrTotal d.raw))
       (clearBit (effBuf dc (hdrBm d.raw) (nbmOf (hdrTotal d.raw))) B)) := by
-    refine ⟨hshape4, by rw [htot4, hsz4]; exact hsz, v4, _, ch', hrd4', by rw [htot4]; exact htree4, hw4, hn4, hgeo4, hprev4, hroot.len, ?_⟩
+    refine ⟨hshape4, by rw [htot4, hsz4]; exact hsz, v4, _, ch', hrd4', by rw [htot4]; exact htree4, hw4, hn4, hgeo4, hprev4, hroot.len, ?_,
+      names_after hroot hsplit hslots4 (fun _ => by rw [fe.name]; exact isNameValid_no_slash nm hv)⟩
     intro y hy
     rw [hslots4] at hy
     rcases List.mem_append.mp hy with a | a
